@@ -39,7 +39,10 @@ pub fn run(ctx: &Ctx, rep: &mut Report) {
         let owner = u.principal();
         let operator = u.principal();
         let stranger = u.principal();
-        let initial = vec![gen_wellformed_set(&mut rng, &mut ring, 3)];
+        // one to three initial signer sets (the deployment is one rotation however many it installs)
+        let n_init = 1 + rng.usize(3);
+        let initial: Vec<MSigners> = (0..n_init).map(|_| gen_wellformed_set(&mut rng, &mut ring, 3)).collect();
+        rep.count(&format!("initial-sets:{}", n_init));
         let mut g = Gw::deploy(&mut u, &owner, &operator, rng.bytes32(), delay, 2, &initial);
         rep.step(format!("world delay={} deployed_at={}", delay, t0));
         let mut alive = true;
